@@ -103,6 +103,34 @@ theorem authenticatePlain_denies_bearer (w : World) (t : Jwt)
   unfold authenticatePlain
   simp [ha, hadm, parseCredentials, hf]
 
+/-- **ts-meta**: with its authentication on and an administrator present, a request whose
+name/password pair is no existing user's (no credentials, wrong password, any bearer token …)
+runs no endpoint handler, whatever the method and path. -/
+theorem meta_no_action_without_credentials (w : World) (method path : String) (req : Req)
+    (ha : w.authEnabled = true) (hadm : w.adminExists = true)
+    (hno : ∀ u, ¬ (w.findUser u.name = some u ∧ u.name ≠ "" ∧ req.passwordPair = some (u.name, u.password))) :
+    decideMeta w method path req = .d401 ∨ decideMeta w method path req = .noRoute := by
+  unfold decideMeta
+  cases hf : metaEndpoints.find? (fun e => e.method = method && e.path = path) with
+  | none => exact Or.inr rfl
+  | some e =>
+    have hw : e.wrapped = true := by
+      have hall := plain_endpoints_all_wrapped
+      rw [List.all_eq_true] at hall
+      exact hall e (List.mem_append_left _ (List.mem_of_find?_eq_some hf))
+    simp only [hw, if_true]
+    cases hp : authenticatePlain w req with
+    | deny s => exact Or.inl rfl
+    | inner =>
+      obtain ⟨u, h1, h2, h3⟩ := authenticatePlain_sound w req ha hadm hp
+      exact absurd ⟨h1, h2, h3⟩ (hno u)
+    | denyThenInner s => exact absurd hp (authenticatePlain_no_fallthrough w req s)
+
+example : decideMeta demoWorld "POST" "/takeover" ⟨"", "", .absent⟩ = .d401 := by decide
+example : decideMeta demoWorld "POST" "/takeover" ⟨"", "", .bearer ⟨true, true, .name "root"⟩⟩ = .d401 := by decide
+example : decideMeta demoWorld "POST" "/takeover" ⟨"", "", .basic "ro" "p"⟩ = .reached := by decide   -- any user: no authorization there
+example : decideMeta demoWorld "GET" "/takeover" ⟨"", "", .basic "ro" "p"⟩ = .noRoute := by decide
+
 example : authenticatePlain demoWorld ⟨"", "", .basic "ro" "p"⟩ = .inner := by decide
 example : authenticatePlain demoWorld ⟨"", "", .basic "ro" "x"⟩ = .deny 401 := by decide
 example : authenticatePlain demoWorld ⟨"", "", .absent⟩ = .deny 401 := by decide
